@@ -669,6 +669,19 @@ func (e *Engine) branch(st *State, fr *Frame, x *ssa.If) {
 		}
 		return
 	}
+	if v, ok := st.lookupFact(c); ok {
+		if v {
+			e.jump(st, fr, succ[0])
+		} else {
+			e.jump(st, fr, succ[1])
+		}
+		return
+	}
+	// merge first, without asking the solver whether both sides are feasible:
+	// an infeasible side only contributes an unreachable ite operand
+	if !e.cfg.NoMerge && e.tryMerge(st, fr, x, c, nil, nil) {
+		return
+	}
 	t, f, mT, mF := e.feas(st, c)
 	switch {
 	case t && !f:
@@ -681,9 +694,6 @@ func (e *Engine) branch(st *State, fr *Frame, x *ssa.If) {
 		return
 	case !t && !f:
 		panic(pathDead{"infeasible"})
-	}
-	if !e.cfg.NoMerge && e.tryMerge(st, fr, x, c, mT, mF) {
-		return
 	}
 	if st.Spec != nil {
 		panic(abortSpec{"unmergeable branch inside speculation"})
